@@ -62,6 +62,12 @@ TABLE = {
     (KP + "parse_mod_prefix", 0):
         "the loop repeats only when a prefix was stripped in this pass (found_none is false); a stripped prefix pushes its key code "
         "on key_stack and a second occurrence of the same key code bails out, so there are at most as many passes as modifier keys",
+    ("kanata_state_machine::kanata::cmd::from_sexpr", 0):
+        "feature cmd only: `remainder = parse_items(remainder, ..)`; parse_items returns `&exprs[1..]` on its own paths and "
+        "otherwise what try_parse_chord returns, which is `&exprs[1..]` or try_parse_chorded_list(&exprs[1..]) - a suffix of "
+        "that: always a strict suffix of the argument",
+    ("kanata_state_machine::kanata::cmd::parse_items", 0): "feature cmd only: same remainder loop over a nested list",
+    ("kanata_state_machine::kanata::cmd::try_parse_chorded_list", 0): "feature cmd only: same remainder loop over the chorded list",
     (KP + "deftemplate::count_exprs", 0):
         "work list over a finite tree: the popped list's direct children are the only things pushed, so every list is pushed once",
     (KP + "deftemplate::expand", 0):
